@@ -805,7 +805,13 @@ class _GzipMessageDelegate(httputil.HTTPMessageDelegate):
                 # as truncated input. If we did legitimately get a new
                 # chunk at this point we'd need to change the
                 # interface to make finish() a coroutine.
-                raise ValueError(
+                #
+                # This is reachable with peer-controlled input (a gzip body
+                # cut while the decompressor still holds output), so it is
+                # reported like any other malformed message rather than as
+                # an uncaught error.
+                self._delegate.on_connection_close()
+                raise httputil.HTTPInputError(
                     "decompressor.flush returned data; possible truncated input"
                 )
             if self._compressed_body_size and not self._decompressor.eof:
